@@ -138,11 +138,14 @@ fn check_string(value: &str, span: &Span, diags: &mut Vec<Diagnostic>) {
         if c == '\\' {
             match it.next() {
                 Some((_, '\'' | '\\')) => {}
-                Some((i, _)) => {
+                Some((i, c)) => {
                     diags.push(
                         Diagnostic::error()
                             .with_message("invalid escape sequence")
-                            .with_label(Label::primary((), span.start + i - 1..span.start + i + 1)),
+                            .with_label(Label::primary(
+                                (),
+                                span.start + i - 1..span.start + i + c.len_utf8(),
+                            )),
                     );
                 }
                 _ => unreachable!(),
